@@ -20,7 +20,7 @@ pub fn def() -> CheckDef {
         bounds_quick: "per operand W<=2 nodes, X<=1 hyperedges, S,T<=2 incidences, interfaces <=2; corner pairs mandatory, the rest of the box seed-sampled under the time budget",
         bounds_thorough: "per operand W<=3, X<=2, S,T<=3, interfaces <=3, total nodes <=6; whole box under the time budget",
         jobs,
-        budget_s: (150, 3000),
+        budget_s: (150, 1500),
     }
 }
 
@@ -95,7 +95,7 @@ pub fn jobs(tier: Tier, seed: u64) -> Vec<Job> {
     let mut seen = std::collections::HashSet::new();
     let per_job = Duration::from_secs(match tier {
         Tier::Quick => 60,
-        Tier::Thorough => 900,
+        Tier::Thorough => 600,
     });
     for (f, g) in corner_pairs() {
         seen.insert((f, g));
